@@ -864,7 +864,8 @@ impl Gen {
         let rnd = self.rng.range(0, room);
         let l = self.rng.pick(&[0, 1, room.saturating_sub(1), room, room + 1, cap + 1, rnd]);
         let b = self.rng.below(256);
-        self.emit(format!("put_slice {id} {l} {b}"));
+        let op = if self.rng.chance(30) { "iowrite" } else { "put_slice" };
+        self.emit(format!("{op} {id} {l} {b}"));
       }
       6 => {
         let n = if allow_panic && self.rng.chance(4) {
@@ -1481,7 +1482,16 @@ impl Gen {
         if remove {
           self.emit("remove_on_drop 1".to_string());
         }
+        // ... and can be taken back on them as well: the file stays
+        let revoked = !remove && self.rng.chance(12);
+        if revoked {
+          self.emit("remove_on_drop 1".to_string());
+          self.emit("remove_on_drop 0".to_string());
+        }
         self.emit("close".to_string());
+        if revoked {
+          self.emit("filehash".to_string());
+        }
         if remove {
           self.emit("filehash".to_string());
           return self.reopen_line("mut", "same", None, None, true).starts_with("r=ok");
